@@ -414,6 +414,16 @@ Theorem C08_capacity_free_zero_demands : forall st,
 Proof. exact capacity_free_zero_demands. Qed.
 Print Assumptions C08_capacity_free_zero_demands.
 
+(* ... and when no demand is negative, the initial loading does not exceed the capacity and covers the demand of all
+   customers together (examples/small.py: capacity 6, initial loading 6, demands 1, 2, 2) -- a test on the node list *)
+Theorem C08_capacity_free_nonneg_demands : forall st,
+  forallb (fun nd => 0 <=? ndemand nd) (nodes (pg st)) = true ->
+  (pinit st <=? pcap st) = true ->
+  (sumZ (map ndemand (nodes (pg st))) <=? pinit st) = true ->
+  capacity_free st.
+Proof. exact capacity_free_nonneg_demandsb. Qed.
+Print Assumptions C08_capacity_free_nonneg_demands.
+
 (* ====================================================================== *)
 (* 4. examples (non-vacuity)                                               *)
 (* ====================================================================== *)
